@@ -1398,6 +1398,66 @@ def part_C_refill(ctx, corpus_specs=()):
                  sel_offset_lines=[int(rng.choice([-1, 0, 1])) for _ in modes], DF=float(fs / nxseg * rng.choice([2.0, 3.0])), seed=int(rng.integers(0, 2**31))))
 
 
+def part_C_wide_search(ctx):
+    """first stage of EFDD / FSDD with a search band WIDER than the band used for the bell (DF1 > DF2, both legal): a weak mode at the
+    requested frequency, a stronger one inside DF1 but beyond DF2.  The property fixes the first stage by DF1 alone: the shape is that of
+    the line of largest s1/s2 in [sel - DF1, sel + DF1], whatever DF2 is.  Function level and through the classes' mpe."""
+    from types import SimpleNamespace
+
+    from pyoma2.algorithms import EFDD, FSDD
+    from pyoma2.setup import SingleSetup
+
+    rng = ctx.np_rng
+    fs = 32.0
+    for c in range(ctx.n(2, 6)):
+        g = np.random.default_rng(int(rng.integers(0, 2**31)))
+        nch, nxseg = int(rng.integers(3, 6)), 128
+        fa = float(rng.choice([5.0, 6.0, 7.0]))
+        gap = float(rng.choice([1.25, 1.5, 1.75])) * (1 if c % 2 == 0 else -1)
+        fb = fa + gap
+        shp = dy_c(g, (2, nch), 8, 8.0)
+        shp[:, 0] = 1.0
+        shp[0] *= 0.25                      # the requested mode is the weaker one
+        x = record(g, 4096, fs, shp, [fa, fb], 0.02)
+        DF1, DF2 = abs(gap) + 0.5, float(rng.choice([0.5, 0.75]))   # DF2 < |gap| < DF1
+        for method_sd in ("per", "cor"):
+            freq, Sy = fdd.SD_est(x.T, x.T, 1 / fs, nxseg, method=method_sd, pov=0.5)
+            held = np.array(Sy, copy=True)
+            for meth, cls in (("EFDD", EFDD), ("FSDD", FSDD)):
+                base = dict(kind="wide-search", nch=nch, nxseg=nxseg, fs=fs, modes=[fa, fb], sel=[fa], DF1=DF1, DF2=DF2, method=method_sd, method_mpe=meth)
+                Phi = None
+                for kw in (dict(sppk=1, npmax=3), dict(sppk=0, npmax=2), dict(sppk=1, npmax=1)):
+                    try:
+                        Phi = np.asarray(fdd.EFDD_mpe(Sy, freq, 1 / fs, [fa], method_sd, method=meth, DF1=DF1, DF2=DF2, **kw)[2])
+                        break
+                    except (IndexError, ValueError, RuntimeError):
+                        continue
+                if Phi is None:
+                    ctx.not_judged += 1
+                else:
+                    ctx.count(dict(base, level="function"), nontrivial=True)
+                    class_oracle(ctx, SimpleNamespace(Sy=held, freq=np.asarray(freq), Fn=None, Phi=Phi, S_val=None, S_vec=None), [fa], DF1,
+                                 dict(base, level="function"), "EFDD_mpe", fn_on_grid=False, check_faithful=False)
+                ss = SingleSetup(x.copy(), fs=fs)
+                alg = cls(name="a", nxseg=nxseg, method_SD=method_sd)
+                ss.add_algorithms(alg)
+                ss.run_by_name("a")
+                got = None
+                for kw in (dict(sppk=1, npmax=3), dict(sppk=0, npmax=2), dict(sppk=1, npmax=1)):
+                    try:
+                        ss.mpe("a", sel_freq=[fa], DF1=DF1, DF2=DF2, **kw)
+                        got = np.asarray(alg.result.Phi)
+                        break
+                    except (IndexError, ValueError, RuntimeError):
+                        continue
+                if got is None:
+                    ctx.not_judged += 1
+                    continue
+                ctx.count(dict(base, level="class"), nontrivial=True)
+                class_oracle(ctx, SimpleNamespace(Sy=np.asarray(alg.result.Sy), freq=np.asarray(alg.result.freq), Fn=None, Phi=got, S_val=None, S_vec=None),
+                             [fa], DF1, dict(base, level="class"), cls.__name__, fn_on_grid=False, check_faithful=False)
+
+
 def part_C_constant(ctx, corpus_specs=()):
     """records with constant channels: the detrended spectrum of such a channel is exactly zero at every line (one
     constant channel: rank-deficient Sy; all channels constant: Sy = 0 everywhere).  The stored decomposition must be
@@ -1795,6 +1855,7 @@ def run(ctx):
     part_C_forms(ctx)
     part_C_plot(ctx, corpus_plot)
     part_C_refill(ctx, corpus_refill)
+    part_C_wide_search(ctx)
     part_C_constant(ctx, corpus_const)
     ctx.extra["t_ABC"] = round(time.time() - ctx.t0, 1)
     part_positional(ctx, corpus_pos)
